@@ -317,6 +317,9 @@ func finish(prop, tier string, results []*harnessResult, known map[string]bool, 
 				coverReached++
 				if cw.Replayed == "reproduced" {
 					coverValidated++
+				} else if doReplay && !cw.Abstract && strings.HasPrefix(cw.Replayed, "not-reproduced") {
+					// the native build does not reach what the encoding reaches: translation mismatch
+					inconclusive(fmt.Sprintf("harness=%s cover witness %q did not reproduce natively: %s", h.Name, t, firstLine(cw.Replayed)))
 				}
 			} else {
 				unreached = append(unreached, t)
